@@ -21,11 +21,11 @@
 (* node: path-subscribed AND has had a snapshot or saw the index empty),     *)
 (* EntriesAreChildren, NoDuplicates, OpsFit.                                 *)
 (*                                                                          *)
-(* Deviations of the model from the code: a recycled DataNode keeps the      *)
-(* generated-name counter of its previous life, the model starts every new   *)
-(* node at 0 (the harness resets the counter of the nodes listed in `fresh`);*)
-(* children are removed in index order when a parent goes (the code: in      *)
-(* creation order) - the logs differ, their replay does not.                 *)
+(* Deviation of the model from the code: children are removed in index       *)
+(* order when a parent goes (the code: in creation order) - the logs differ, *)
+(* their replay does not.  A new node counts its generated names from 0      *)
+(* (DataNode::Init since the repair of F40); `fresh` names the parents a     *)
+(* command creates.                                                          *)
 (* Deviations (constant): "F26" CloneDataNodeSubtree before its repair, and  *)
 (* the wrong variants "pos1" (insert before the first entry reported at 1),  *)
 (* "prelen" (reorder to the end uses the length before the removal),         *)
